@@ -423,7 +423,7 @@ Definition builtin (globals : env) (f : string) (args : list gval) : res gval :=
     end
   else if (f =? "fmt.Errorf") || (f =? "errors.New") then RRet (VErr true)
   else if f =? "context.Background" then RRet VUnit
-  else if f =? "time.Now" then RRet VUnit
+  else if f =? "time.Now" then match lookup globals "$start" with Some v => RRet v | None => RRet VUnit end
   else if f =? "fmt.Errorf%w" then
     match args with
     | [VErrTag t] => RRet (VErrTag t)          (* wrapping keeps the identity errors.Is looks for *)
@@ -812,7 +812,7 @@ Fixpoint eval (fuel : nat) (fs : list (string * gfun)) (globals en : env) (e : g
                                        | VTxs (Some l) => RRet (VData {| d_meta := None; d_txs := l |})
                                        | VTxs None => RRet (VData {| d_meta := None; d_txs := [] |})
                                        | _ => RFail "Data{Txs: ?}" end)
-              else RFail "Data literal"
+              else bind (ev fe) (fun v => RRet (VRec [(fname, v)]))        (* &types.Data{Metadata: m}: a record *)
           | [] => RRet (VData {| d_meta := None; d_txs := [] |})          (* &types.Data{} *)
           | _ => RFail "Data literal"
           end
